@@ -70,6 +70,8 @@ def ops_for(kind, dist):
     if kind != "simple":
         ops += [dict(op="prm", v=k) for k in range(4)] + [dict(op="prm", v="A"), dict(op="prm", v="F"), dict(op="scribble-param")]
         ops += [dict(op="read", what="sf"), dict(op="read", what="pdf")]
+        # the stock is handed ANOTHER lifetime model object (parameters given to the constructor / set afterwards)
+        ops += [dict(op="swap-lm", v=1, how="ctor"), dict(op="swap-lm", v=2, how="set"), dict(op="swap-lm", v=0, how="set")]
     else:
         ops += [dict(op="drv2", v=k) for k in range(2)]
     ops.append(dict(op="compute"))
@@ -210,6 +212,25 @@ def apply_op(st, op, check):
         st.prm = op["v"]
         st.handed = [v for v in kw.values() if hasattr(v, "values")]
         return "prms-set", None
+    if op["op"] == "swap-lm":
+        import flodym
+
+        kw = prm_kwargs(st.dist, op["v"], s.dims)
+
+        def swap():
+            if op["how"] == "ctor":
+                lm = getattr(flodym, st.dist)(dims=s.dims, n_pts_per_interval=NPTS, **kw)
+            else:
+                lm = getattr(flodym, st.dist)(dims=s.dims, n_pts_per_interval=NPTS)
+                lm.set_prms(**kw)
+            s.lifetime_model = lm
+
+        stt, info = attempt(swap)
+        if stt == "raised":
+            return fail("raised", f"assigning another lifetime model raised {info}")
+        st.prm = op["v"]
+        st.handed = []
+        return "lifetime-model-replaced", None
     if op["op"] == "scribble-param":
         # the user keeps working with the arrays that were handed to set_prms (in-place edit)
         for a in getattr(st, "handed", []):
